@@ -250,7 +250,7 @@ impl Check for HistCheck {
     fn info(&self, tier: Tier) -> CheckInfo {
         let (rule, budget) = match self.prop {
             "C02" => ("base workflows W1-W4 x every sequence of <= L client actions from {complete, submit, skip, remove, abort, error(e1|e2), cancel, back(to every step)} aimed at every interrupt act that exists at that moment (open or already terminal), issued at any quiescent point or (one deviation) racing in-flight work; the oracle follows the reported state sequence of every task", tier.pick(50, 1200)),
-            "C03" => ("workflows with two concurrently open regions (two branches, parallel act, nested branch, two acts in a branch) x every sequence of <= L client actions on their acts x both keep_processes settings; oracle: containers complete only over terminal subtrees, process state mirrors the root, one start and one terminal event, nothing open or acted on after a non-error terminal event", tier.pick(50, 1200)),
+            "C03" => ("workflows with two concurrently open regions (two branches, parallel act, nested branch, two acts in a branch, sibling acts of a block, parked needs / else branches) and a rework loop with a backward `next` jump x every sequence of <= L client actions on their acts x both keep_processes settings; oracle: containers complete only over terminal subtrees, process state mirrors the root, one start and one terminal event, nothing open or acted on after a non-error terminal event", tier.pick(50, 1200)),
             "C11" => ("workflows W1, W2, W3, W4, W6, W7 and four data workflows (env declared in the model, env written by a script, a variable that propagates to the root, action options that write variables of two enclosing tasks) x every sequence of <= 2 client actions x both keep_processes settings x both stores; at every quiescent point of every execution the live process (full dump) is compared with the proc row and the task rows: tid set, per task state, prev, data, err, start/end time, per process state, err, env", tier.pick(50, 900)),
             "C08" => ("the executions of the C02 history scenarios; oracle: per task at most one created and one terminal message in that order, existence per node kind, every message field equal to the task at generation time, unique ids, parent announced before child", tier.pick(50, 1200)),
             _ => ("admission matrix: from every state reachable by a prefix history, each of the ten action kinds x targets {open act, terminal act, step, branch, root, unknown tid, unknown pid} x option maps (none / all declared outputs / one missing / extra keys); every accepted call must satisfy the admission rule, every rejected terminal-style call returns Err and leaves dump and message stream unchanged", tier.pick(50, 900)),
